@@ -1,10 +1,14 @@
 /-
 C03 driver: model side of the chunking correspondence.
 case: {"body": hex, "filters": [..], "headers": [[n,v]..], "scheds": [[cuts]..]}
-out:  {"m": {"one": hex of run [b], "sch": ["=" | hex of run (split b cuts) ..]}}
+out:  {"m": {"one": hex of run [b], "sch": ["=" | hex of run (split b cuts) ..]}, "tags": [..]}
+For a chain that consists of one html stage the hypothesis of Rio.C03.chunk_invariant_partial (`safeRunB`) is evaluated
+on every schedule: tags "sem-safe" / "sem-unsafe" (coverage of the theorem), and a schedule that is safe but differs
+from the single-chunk run would contradict the theorem — reported as a driver error, never silently.
 -/
 import Drivers.Common
 import RioModel.Model.FilterJson
+import RioModel.Proofs.FilterTotal
 open Lean Rio.Filter
 
 def handle (j : Json) : Except String Json := do
@@ -16,9 +20,17 @@ def handle (j : Json) : Except String Json := do
   if chain.items.any fun st => st.kind == "decode" then throw "compressed chain"
   let run := fun (chunks : List Bytes) => chain.run htmlTokenize evalStandIn noCodec chunks
   let one := run [body]
-  let sch := scheds.map fun cuts =>
-    let out := run (splitAt body cuts)
-    if out == one then toJson "=" else toJson (J.hex out)
-  return Json.mkObj [("m", Json.mkObj [("one", toJson (J.hex one)), ("sch", Json.arr sch.toArray)])]
+  let outs := scheds.map fun cuts => run (splitAt body cuts)
+  let sch := outs.map fun out => if out == one then toJson "=" else toJson (J.hex out)
+  let mut tags : Array Json := #[]
+  match chain.items with
+  | [.html s] =>
+    let flags := scheds.map fun cuts => safeRunB htmlTokenize evalStandIn s (splitAt body cuts)
+    if flags.any id then tags := tags.push (toJson "sem-safe")
+    if flags.any (!·) then tags := tags.push (toJson "sem-unsafe")
+    for (f, out) in flags.zip outs do
+      if f && out != one then throw "a schedule satisfying SafeRun differs from the single-chunk run (contradicts chunk_invariant_partial)"
+  | _ => pure ()
+  return Json.mkObj [("m", Json.mkObj [("one", toJson (J.hex one)), ("sch", Json.arr sch.toArray)]), ("tags", Json.arr tags)]
 
 def main : IO Unit := Drv.run handle
